@@ -976,7 +976,15 @@ def rule_hashable_membership_(ctx: Ctx, rep: Report) -> None:
     rule_hashable_membership(ctx, rep, "C19.hashable_membership", ('btclib.',))
 
 
+def rule_single_pass_(ctx: Ctx, rep: Report) -> None:
+    """C19.single_pass: a parameter that may be a one-shot iterable is walked, or handed to a function that walks it, at most once per path (see sigcommon.rule_single_pass)."""
+    from rules.sigcommon import rule_single_pass
+    rule_single_pass(ctx, rep, "C19.single_pass", ('btclib.',), 40)
+
+
 RULES = [
+    ("C19.single_pass", rule_single_pass_),
+
     ("C19.hashable_membership", rule_hashable_membership_),
 
     ("C19.digit_runs_bounded", rule_digit_runs_bounded),
